@@ -44,6 +44,8 @@ type TLSW struct {
 	DNS          []string `json:",omitempty"`
 	IPs          []string `json:",omitempty"`
 	Exts         []ExtSpec
+	Real         bool `json:",omitempty"` // dialled by the real acme.NewClient() to a loopback TLS server
+	Refused      bool `json:",omitempty"` // Real: nobody listens on the port
 	obs          *tlsObs
 }
 
@@ -206,6 +208,20 @@ func (s *scripted) TLSDial(network, addr string, config *tls.Config) (*tls.Conn,
 	if w == nil {
 		return fail(errors.New("unexpected TLSDial"))
 	}
+	if w.Real { // the real client's TLSDial with the validator's own configuration
+		conn, err := realClient.TLSDial(network, addr, config)
+		if err != nil {
+			return fail(err)
+		}
+		cs := conn.ConnectionState()
+		obs.proto = cs.NegotiatedProtocol
+		if len(cs.PeerCertificates) == 0 {
+			obs.noCerts = true
+		} else {
+			obs.leaf = cs.PeerCertificates[0]
+		}
+		return conn, nil
+	}
 	if w.Err != "" {
 		return fail(mkErr(w.Err))
 	}
@@ -261,6 +277,9 @@ func (s *scripted) Get(u string) (*http.Response, error) {
 	w := s.k.HTTP
 	if w == nil {
 		return nil, errors.New("unexpected Get")
+	}
+	if w.Real {
+		return s.realGet(u)
 	}
 	if w.Err != "" {
 		return nil, mkErr(w.Err)
